@@ -403,6 +403,17 @@ pub fn run() -> i32 {
                 eprintln!("SELFTEST-FAIL: c13_double_literal: case {}", code);
             }
         }
+        for kind in 0..=2u8 {
+            for bits in [0u64, 1, u64::MAX, 1 << 63, (1 << 63) - 1, 1 << 53, (1 << 53) + 1, 0x43E0000000000000, 0x4340000000000001, 0x8000000000000000, 0x3FF8000000000000,
+                         0x7FF0000000000000, 0xFFF0000000000000, 0x7FF8000000000000, 0x0000000000000001, 0x7FEFFFFFFFFFFFFF, 0xC3E0000000000001, 0x4415AF1D78B58C40] {
+                crate::sym::load(vec![vec![kind], bits.to_le_bytes().to_vec()]);
+                n += 1;
+                if std::panic::catch_unwind(|| crate::node::c13_string_roundtrip()).is_err() {
+                    c11_bad += 1;
+                    eprintln!("SELFTEST-FAIL: c13_string_roundtrip: kind={} bits={:#x}", kind, bits);
+                }
+            }
+        }
         for method in 0..2u8 {
             for neg in 0..(2 - method) {
                 for hex in 0..2u8 {
